@@ -267,7 +267,7 @@ func CheckGraph(g *Graph, escaped map[string][]byte, inScope func(gno.PkgID) boo
 					// not the re-owned-after-escape state (sole referrer recorded as owner): the recorded
 					// owner is gone, holds no reference, or the object is still shared
 					clause = "owner-stale-on-escaped-object"
-					if o.Info.RefCount == 1 && ow != nil && !holds && indeg[id] == 1 && len(referrers[id]) == 1 {
+					if o.Info.RefCount == 1 && !holds && indeg[id] == 1 && len(referrers[id]) == 1 { // (the old owner may have been deleted since)
 						if r := g.Objs[referrers[id][0]]; r != nil && r.ID.PkgID == o.ID.PkgID {
 							// re-owned after its escape (owner-set-on-escaped-object), then its sole reference
 							// was moved to another object of the realm (owner-stale-after-sole-reference-moved)
